@@ -30,15 +30,16 @@ CONSTANT IDeviations     \* deviation tags of this module the code is known to h
 Stacks == {"fs", "classes"}
 Kinds  == {"flip", "truncate", "extend", "missing"}
 
-\* part store that holds the data of an object of storage class `class`
-\* (harness/stacks: "classes" routes GLACIER to the extra store "cold")
+\* part store that holds the bytes of a part routed by storage class `class` (harness/stacks:
+\* "classes" routes GLACIER to the extra store "cold"); Pithos.tla records the routing class of
+\* every part row in v.pcls
 StoreOf(stack, class) == IF stack = "classes" /\ class = "GLACIER" THEN "cold" ELSE "default"
 
 \* bytes of a part: the empty blob contributes nothing
 PBytes(p) == SelectSeq(p, LAMBDA c : c # "c0")
 
 \* physical part behind part row i of version v
-PartRef(stack, v, i) == [store |-> StoreOf(stack, v.class), c |-> PBytes(v.parts[i])]
+PartRef(stack, v, i) == [store |-> StoreOf(stack, v.pcls[i]), c |-> PBytes(v.parts[i])]
 PartRefs(stack, v) == {PartRef(stack, v, i) : i \in 1..Len(v.parts)}
 
 \* every physical part some row references: all versions of all keys + pending uploads
@@ -135,17 +136,19 @@ C39Holds(St, stack, corr, del, a) ==
 \* parts and both deletion modes, the validator of the intended design satisfies C39.
 CONSTANTS MCKinds,        \* corruption kinds enumerated by the design check
           MCStacks        \* stacks enumerated by the design check
+\* the calls of PithosMC's alphabet (cfg: Ops, one bucket, no conditions/metadata) narrowed to
+\* those that matter here; fields are tested only if the alphabet has them
+Has(c, f) == f \in DOMAIN c
 ICalls(St) ==
-  [op : {"PutVersioning"}, b : {"b1"}, status : {"Enabled"}]
-  \cup [op : {"PutObject"}, b : {"b1"}, k : Keys, blob : Blobs, ctype : {None}, meta : {None}, tags : {None},
-        class : Classes, cond : {"none"}]
-  \cup [op : {"AppendObject"}, b : {"b1"}, k : Keys, blob : Blobs, off : {"none"}]
-  \cup [op : {"CopyObject"}, sb : {"b1"}, sk : Keys, svid : {-1}, b : {"b1"}, k : Keys, mdir : {"COPY"}, tdir : {"COPY"},
-        ctype : {None}, meta : {None}, tags : {None}, class : Classes]
-  \cup [op : {"DeleteObject"}, b : {"b1"}, k : Keys, vid : {-1}, cond : {"none"}]
-  \cup [op : {"CreateUpload"}, b : {"b1"}, k : {"k2"}, ctype : {None}, meta : {None}, tags : {None}, class : Classes]
-  \cup [op : {"UploadPart"}, b : {"b1"}, k : {"k2"}, u : {1}, n : 1..MaxParts, blob : Blobs]
-  \cup [op : {"CompleteUpload"}, b : {"b1"}, k : {"k2"}, u : {1}, manifest : {"all"}, cond : {"none"}]
+  {c \in Calls(St) :
+     /\ c.op = "PutVersioning" => c.status = "Enabled"
+     /\ c.op = "CopyObject" => c.svid = -1 /\ c.mdir = "COPY" /\ c.tdir = "COPY"
+     /\ c.op = "DeleteObject" => c.vid = -1
+     /\ c.op = "AppendObject" => c.off = "none"
+     /\ c.op \in {"CreateUpload", "UploadPart", "CompleteUpload"} => c.k = "k2"
+     /\ c.op \in {"UploadPart", "CompleteUpload"} => c.u = 1
+     /\ c.op = "CompleteUpload" => c.manifest = "all"
+     /\ (c.op = "CreateUpload" /\ Has(c, "cktype")) => c.cktype = "none"}
 IInit == /\ S = Apply(InitState(Buckets, Keys, Deviations), [op |-> "CreateBucket", b |-> "b1"]).s
          /\ res = NoRes /\ hist = <<>>
 INext == /\ S.clock < MaxClock
@@ -170,5 +173,5 @@ IView == [bver |-> S.bver, ups |-> S.ups,
                      [i \in 1..Len(S.objs[b][k]) |-> [vid |-> S.objs[b][k][i].vid, dm |-> S.objs[b][k][i].dm,
                         latest |-> S.objs[b][k][i].latest, parts |-> S.objs[b][k][i].parts,
                         single |-> S.objs[b][k][i].single, class |-> S.objs[b][k][i].class,
-                        seq1 |-> S.objs[b][k][i].seq1]]]]]
+                        seq1 |-> S.objs[b][k][i].seq1, pcls |-> S.objs[b][k][i].pcls]]]]]
 =============================================================================
